@@ -39,8 +39,8 @@ CHECKS = {
 	'C20': dict(
 		category='exploration',
 		technique='exhaustive index expressions (n<=4/6) over 3 container types + Hypothesis-generated expressions, equality pairs and list-mutation histories vs a Python list model',
-		text='Every int index, slice (all start/stop/step over a small range incl. step 0), index list of length <=3 and boolean mask is evaluated on SignatureArray, SignatureList and file-backed HDF5Signatures of length 0..4 (quick) / 0..6 (thorough) and compared with what a plain list of the arrays gives (selection, error class, k-mer spec, dtype, caller index array unmodified); longer collections in further container variants (int32 / uint64 bounds, windows with bounds[0] != 0, views, gzip-compressed files), ill-typed indices, unsigned indices up to 2^64-1, pickled and deep-copied containers, cross-container equality pairs (incl. reverse-complement prefixes and reference sets carrying identical release metadata) range objects (every start / stop / step over the small range) and 50-step SignatureList mutation histories (model-based, including sub-collections sliced off earlier, which must stay independent lists) are generated.',
-		note='Oracle is a Python list; view/copy semantics are not asserted. A Python bool as scalar index is excluded (list and NumPy semantics disagree). Two genuine defects found and repaired (see KNOWN_FINDINGS.txt).',
+		text='Every int index, slice (all start/stop/step over a small range incl. step 0), index list of length <=3 and boolean mask is evaluated on SignatureArray, SignatureList and file-backed HDF5Signatures of length 0..4 (quick) / 0..6 (thorough) and compared with what a plain list of the arrays gives (selection, error class, k-mer spec, dtype, caller index array unmodified); longer collections in further container variants (int32 / uint64 bounds, windows with bounds[0] != 0, views, gzip-compressed files), ill-typed indices, unsigned indices up to 2^64-1, index containers NumPy wraps without copying (array.array, memoryview, __array__ objects: must come back unmodified), pickled and deep-copied containers, cross-container equality pairs (incl. reverse-complement prefixes and reference sets carrying identical release metadata) range objects (every start / stop / step over the small range) and 50-step SignatureList mutation histories (model-based, including sub-collections sliced off earlier, which must stay independent lists) are generated.',
+		note='Oracle is a Python list; view/copy semantics are not asserted. A Python bool as scalar index is excluded (list and NumPy semantics disagree). Three genuine defects found and repaired (see KNOWN_FINDINGS.txt).',
 		design='DESIGN.md §4 C20',
 	),
 	'C05': dict(
